@@ -4,7 +4,7 @@ c = c
 Obj = {a, b, c}
 NULL = NULL
 ObjSeq <- ObjSeqDef
-FmtSel = {1, 3, 5}
+FmtSel = {1, 5, 6}
 RndSel = {1}
 OvfSel = {1, 2}
 GridSel = {2, 4}
